@@ -46,7 +46,9 @@ func TestCheck(t *testing.T) {
 		"final-everything-closed-by-clients":              5,
 		"stress-round-completed":                          3,
 	} {
-		r.Floor(name, min)
+		if r.ReplayFile() == "" {
+			r.Floor(name, min)
+		}
 	}
 
 	if f := r.ReplayFile(); f != "" {
